@@ -54,7 +54,7 @@ EXPECTED_PROBES = ["alloc_fault_fired", "retry_after_alloc_error", "batch_size_1
                    "nonunit_calibration", "integer_origin_outside_detector", "origin_given_noncontiguous",
                    "shift_mode_nearest", "shift_mode_bicubic", "planted_plane_explicit_positions",
                    "detector_mask_bool", "detector_mask_float", "detector_mask_int", "detector_mask_hole",
-                   "forward_workflow", "forward_with_explicit_positions"]
+                   "forward_workflow", "forward_with_explicit_positions", "batch_size_numpy_int"]
 
 _ctx = {}
 
@@ -288,6 +288,9 @@ def run(plan):
             bump(probes, "batch_larger_than_n")
         if n % bs and bs < n:
             bump(probes, "batch_nondivisor")
+        if b is not None and (b + len(plan["ops"])) % 4 == 0:
+            b = np.int64(b)            # a batch size computed with NumPy
+            bump(probes, "batch_size_numpy_int")
         f = op.get("fault")
         if f:
             before_m = None if model.origin_measured is None else model.origin_measured.clone()
